@@ -71,22 +71,40 @@ def analyze(
 
 
 def _analyze_sequence(
-    nodes: list, config: Config, cwd: Path, *, remote: bool = False
+    nodes: list,
+    config: Config,
+    cwd: Path,
+    *,
+    remote: bool = False,
+    operators: list[str] | None = None,
 ) -> list[Decision]:
-    """Analyze commands that run one after another, tracking `cd <literal>`.
+    """Analyze commands that run one after another, tracking `cd <literal> &&`.
 
-    Each `cd <literal>` changes the directory used for the commands after it.
+    operators[i] is the list operator written after nodes[i]; a newline or the
+    end of the list counts as ";".  A `cd <literal>` is followed only into the
+    parts joined to it by `&&`: those run only if the cd succeeded.  After any
+    other operator the shell may be in either directory (the cd may have
+    failed), and a part followed by `&` runs in a subshell and moves nothing.
     """
     decisions = []
     effective_cwd = cwd
-    for node in nodes:
+    assumed = False  # effective_cwd holds only if an earlier cd succeeded
+    for i, node in enumerate(nodes):
         decisions.append(_analyze_node(node, config, effective_cwd, remote=remote))
-        if not remote:
+        if remote:
+            continue
+        op = operators[i] if operators and i < len(operators) else ";"
+        if op != "&":
             cd_target = _extract_cd_target(node)
-            if cd_target:
+            if cd_target and op == "&&":
                 effective_cwd = _resolve_cd_target(cd_target, effective_cwd)
-            elif _changes_directory(node):
+                assumed = True
+                continue
+            if cd_target or _changes_directory(node):
                 effective_cwd = _UNKNOWN_CWD
+        if assumed and op != "&&":
+            effective_cwd = _UNKNOWN_CWD
+            assumed = False
     return decisions
 
 
@@ -146,9 +164,18 @@ def _analyze_node(node, config: Config, cwd: Path, *, remote: bool = False) -> D
 
     elif kind == "list":
         # All parts must be safe (skip operators like && ||)
-        parts = [p for p in node.parts if getattr(p, "kind", None) != "operator"]
-        # `cd <literal>` parts change the path used for the parts after them
-        decisions = _analyze_sequence(parts, config, cwd, remote=remote)
+        parts = []
+        operators = []
+        for p in node.parts:
+            if getattr(p, "kind", None) != "operator":
+                parts.append(p)
+                operators.append(";")
+            elif parts:
+                operators[-1] = p.op
+        # `cd <literal> &&` changes the path used for the parts after it
+        decisions = _analyze_sequence(
+            parts, config, cwd, remote=remote, operators=operators
+        )
         result = _combine(decisions)
         if result.action == "allow":
             reasons = [d.reason for d in decisions]
